@@ -32,7 +32,16 @@ RULE = ('a case = up to 3 webhook threads x <=2 deliveries x <=2 keys (PR ids '
         'put_job is interrupted by a step of another thread after its first '
         'line (the membership test) started and before its put / its return '
         '(this includes the worker dequeuing in that window); distinct by the '
-        'hash of (keys, outcomes used, executed step trace).')
+        'hash of (keys, outcomes used, executed step trace). Part W (Flask '
+        'handlers in front of put_job): every pair of deliveries on one key '
+        '(same commit in every build state, same pull request, API orders; '
+        'both hosts) with and without a drain in between, plus generated '
+        'sequences of <= 9 deliveries / drains through the real application '
+        'with the real put_job and process_task; oracle = the job the same '
+        'delivery enqueues on a pristine application must be enqueued (or an '
+        'equal one still be waiting) and evaluated afterwards; non-trivial = '
+        'a delivery whose job was already done once, or that follows another '
+        'state of the same key.')
 ASSUMPTIONS = [
     'interleavings at source-line granularity inside bert_e.py and job.py; '
     'queue.Queue, deque and logging internals run atomically per line',
@@ -1072,6 +1081,10 @@ def run(ctx):
     acc = run_shards(__name__, 'shard_hyp', ctx,
                      [(i, per) for i in range(16)])
     acc.merge_dump(run_shards(__name__, 'shard_outcomes', ctx, [0]).dump())
+    # part W: the Flask handlers in front of put_job (c13_hooks.py)
+    per_w = 120 if ctx['tier'] == 'quick' else 1500
+    acc.merge_dump(run_shards('vf.checks.c13_hooks', 'shard_fn', ctx,
+                              [(i, 16, per_w) for i in range(16)]).dump())
     acc.extra['outcome_domain_size'] = len(outcome_table())
     acc.extra['outcomes_unconstructible'] = list(_STATE['unconstructible'])
     acc.extra['exhaustive'] = False
@@ -1101,6 +1114,9 @@ def run(ctx):
 
 
 def replay(ctx, case, acc):
+    if case.get('part') == 'hooks':
+        from vf.checks import c13_hooks
+        return c13_hooks.replay(ctx, case, acc)
     outcome_table()
     r = run_case(case)
     for msg, sig in r.violations:
